@@ -89,4 +89,4 @@ def check(spec, ctx):
 
 
 def parts():
-    return [Part("compositions", check, strategy=spec_st(), strategy_thorough=spec_st(deep=True), budget={"quick": 1400, "thorough": 80000})]
+    return [Part("compositions", check, strategy=spec_st(), strategy_thorough=spec_st(deep=True), budget={"quick": 1400, "thorough": 80000}, fuzz={"thorough": 6000})]
